@@ -234,6 +234,21 @@ func (x *re) lean(sb *strings.Builder) {
 	}
 }
 
+// sigFor names a difference from the reference engine. When the whole match is the same and only
+// group spans differ, and the pattern repeats a body that can match the empty string (`(x?)*`,
+// `(a*)+` …), the pattern has several parses with empty iterations and engines legitimately
+// choose different ones (Go drops empty iterations, util/regex keeps the first): own signature.
+func sigFor(base string, x *re, got, ref string) string {
+	if !nullableLoop(x) || got == "-" || ref == "-" {
+		return base
+	}
+	g, r := strings.Fields(got), strings.Fields(ref)
+	if len(g) >= 2 && len(r) >= 2 && g[0] == r[0] && g[1] == r[1] {
+		return "regex-captures-differ-under-nullable-loop"
+	}
+	return base
+}
+
 func capString(matched bool, cap *regex.Captures, ng int) string {
 	if !matched {
 		return "-"
@@ -353,12 +368,17 @@ func main() {
 		case 0:
 			alphabet = "abc\r\n1"
 			withCR = true
-		case 1, 2:
+		case 1:
+			// bytes >= 0x80: Go works on runes, so only the Lean matcher is the reference here
+			alphabet = "ab\x80\xe9\xffz"
+			withCR = true
+			t.Count("subject:high-bytes")
+		case 2:
 			alphabet = "abzZAB"
 		case 3:
 			alphabet = "ab"
 		}
-		if forceAlpha != "" && !withCR {
+		if forceAlpha != "" && !withCR && r.Intn(4) != 0 {
 			alphabet = forceAlpha
 		}
 		ln := r.Intn(8)
@@ -441,14 +461,14 @@ func main() {
 				gout = strings.Join(parts, " ")
 			}
 			if gout != out {
-				t.Fail("regex-differs-from-reference", fmt.Sprintf("pattern %q subject %q: suneido [%s] go [%s]", icp+pat, s, out, gout))
+				t.Fail(sigFor("regex-differs-from-reference", x, out, gout), fmt.Sprintf("pattern %q subject %q: suneido [%s] go [%s]", icp+pat, s, out, gout))
 			}
 			ref := &goRef{pat: icp + gpat, cache: map[int]*regexp.Regexp{}}
 			if g1 := ref.first(s, pos, ng); g1 != firstOut {
-				t.Fail("regex-firstmatch-differs-from-reference", fmt.Sprintf("pattern %q subject %q FirstMatch from %d: suneido [%s] reference [%s]", icp+pat, s, pos, firstOut, g1))
+				t.Fail(sigFor("regex-firstmatch-differs-from-reference", x, firstOut, g1), fmt.Sprintf("pattern %q subject %q FirstMatch from %d: suneido [%s] reference [%s]", icp+pat, s, pos, firstOut, g1))
 			}
 			if g2 := ref.last(s, pos, ng); g2 != lastOut {
-				t.Fail("regex-lastmatch-differs-from-reference", fmt.Sprintf("pattern %q subject %q LastMatch from %d: suneido [%s] reference [%s]", icp+pat, s, pos, lastOut, g2))
+				t.Fail(sigFor("regex-lastmatch-differs-from-reference", x, lastOut, g2), fmt.Sprintf("pattern %q subject %q LastMatch from %d: suneido [%s] reference [%s]", icp+pat, s, pos, lastOut, g2))
 			}
 			var spans []string
 			for k := 0; k <= len(s); {
